@@ -16,15 +16,19 @@ CONSTANTS Clients,        \* client sockets on A, e.g. {"c1", "c2"}
           Mius, RWs,      \* connection MIU / RW values to choose from (per socket)
           LinkMiuA, LinkMiuB,   \* send-miu of A (= B's link receive MIU) and of B
           MaxAcc,         \* bound on accept() calls (model checking)
-          ListenerPresent \* FALSE: the access point exists but nobody listens (raw socket etc.)
+          ListenerPresent, \* FALSE: the access point exists but nobody listens (raw socket etc.)
+          EarlyOrder      \* "cc-first": the CC of an accepted connection leaves before data the server sends on it at
+                          \* once (the code since the fix "data sent right after accept() overtook the CC");
+                          \* "data-first": the code before that fix (accepted sockets are served before the listener)
 
 VARIABLES cl,        \* cl[c] = [st, rmiu, rw, smiu, swin, peer, res]           (A side)
           lst,       \* listener = [st, rmiu, rw, rq]   rq: Seq of CONNECT PDUs   (B side)
           acc,       \* Seq of accepted connections [st, peer, smiu, swin, rmiu, rw]
           ab, ba,    \* wires A->B, B->A
-          nacc
+          nacc,
+          lost       \* an I PDU reached a client that was still in CONNECT state and was dropped
 
-vars == <<cl, lst, acc, ab, ba, nacc>>
+vars == <<cl, lst, acc, ab, ba, nacc, lost>>
 
 Addr(c) == CHOOSE f \in [Clients -> 32..63] : \A x, y \in Clients : x # y => f[x] # f[y]
 SapB == 16
@@ -35,7 +39,7 @@ Init ==
     /\ cl \in [Clients -> {[st |-> "CLOSED", rmiu |-> m, rw |-> w, smiu |-> 128, swin |-> 0, peer |-> 0, res |-> "-"] :
                            m \in Mius, w \in RWs}]
     /\ \E m \in Mius, w \in RWs : lst = [st |-> IF ListenerPresent THEN "LISTEN" ELSE "NONE", rmiu |-> m, rw |-> w, rq |-> <<>>]
-    /\ acc = <<>> /\ ab = <<>> /\ ba = <<>> /\ nacc = 0
+    /\ acc = <<>> /\ ab = <<>> /\ ba = <<>> /\ nacc = 0 /\ lost = FALSE
 
 \* ---- A side -------------------------------------------------------------------------------------
 \* connect(): CLOSED -> CONNECT, the CONNECT PDU is queued (and, in the spec, put on the wire)   tco.py:451-473
@@ -43,7 +47,7 @@ Connect(c) ==
     /\ cl[c].st = "CLOSED" /\ cl[c].res = "-"
     /\ cl' = [cl EXCEPT ![c].st = "CONNECT"]
     /\ ab' = Append(ab, Pdu("CONNECT", SapB, Addr(c)[c], cl[c].rmiu, cl[c].rw, 0))
-    /\ UNCHANGED <<lst, acc, ba, nacc>>
+    /\ UNCHANGED <<lst, acc, ba, nacc, lost>>
 
 ClientOf(a) == CHOOSE c \in Clients : Addr(c)[c] = a
 IsClientAddr(a) == \E c \in Clients : Addr(c)[c] = a
@@ -68,9 +72,12 @@ DeliverA ==
                         /\ ab' = Append(ab, Pdu("DM", p.s, p.d, 0, 0, 0))
                  [] cl[c].st = "DISCONNECT" /\ p.t = "DM" ->          \* our close() handshake completes
                         /\ cl' = [cl EXCEPT ![c].st = "SHUTDOWN"] /\ ab' = ab
+                 [] cl[c].st = "ESTABLISHED" /\ p.t = "I" ->          \* data: the application reads it, an RR goes back
+                        /\ cl' = cl /\ ab' = Append(ab, Pdu("RR", p.s, p.d, 0, 0, 0))
                  [] cl[c].st = "CLOSED" /\ p.t \in {"CC", "DISC", "I"} ->  \* tco.py:607-609: DM reason 1
                         /\ cl' = cl /\ ab' = Append(ab, Pdu("DM", p.s, p.d, 0, 0, 1))
                  [] OTHER -> cl' = cl /\ ab' = ab
+    /\ lost' = (lost \/ (IsClientAddr(Head(ba).d) /\ Head(ba).t = "I" /\ cl[ClientOf(Head(ba).d)].st = "CONNECT"))
     /\ UNCHANGED <<lst, acc, nacc>>
 
 \* close() on an established client: DISC, wait for DM (tco.py:577-592)
@@ -78,12 +85,12 @@ CloseClient(c) ==
     /\ cl[c].st = "ESTABLISHED"
     /\ cl' = [cl EXCEPT ![c].st = "DISCONNECT"]
     /\ ab' = Append(ab, Pdu("DISC", cl[c].peer, Addr(c)[c], 0, 0, 0))
-    /\ UNCHANGED <<lst, acc, ba, nacc>>
+    /\ UNCHANGED <<lst, acc, ba, nacc, lost>>
 \* recv() returns None after the peer's DISC: close() -> SHUTDOWN (tco.py:546-548)
 RecvNone(c) ==
     /\ cl[c].st = "CLOSE_WAIT"
     /\ cl' = [cl EXCEPT ![c].st = "SHUTDOWN"]
-    /\ UNCHANGED <<lst, acc, ab, ba, nacc>>
+    /\ UNCHANGED <<lst, acc, ab, ba, nacc, lost>>
 
 \* ---- B side -------------------------------------------------------------------------------------
 AccIdx(peer) == {i \in DOMAIN acc : acc[i].peer = peer /\ acc[i].st # "SHUTDOWN"}
@@ -111,7 +118,7 @@ DeliverB ==
                   \* no connection for that peer: the listening socket (peer None) takes the PDU and ignores it
                   lst' = lst /\ acc' = acc /\ ba' = ba
             [] OTHER -> lst' = lst /\ acc' = acc /\ ba' = ba
-    /\ UNCHANGED <<cl, nacc>>
+    /\ UNCHANGED <<cl, nacc, lost>>
 
 \* accept(): pop a CONNECT, create the connection, queue CC (tco.py:423-447, llc.py:805-818)
 Accept ==
@@ -122,20 +129,34 @@ Accept ==
                               rmiu |-> lst.rmiu, rw |-> lst.rw])
        /\ ba' = Append(ba, Pdu("CC", p.s, SapB, lst.rmiu, lst.rw, 0))
     /\ nacc' = nacc + 1
-    /\ UNCHANGED <<cl, ab>>
+    /\ UNCHANGED <<cl, ab, lost>>
+
+\* accept() followed at once by send() on the new connection (a server that greets its client): the CC must reach the
+\* client before the data, otherwise the client - still in CONNECT state - drops the I PDU (tco.py enqueue)
+AcceptSend ==
+    /\ lst.st = "LISTEN" /\ lst.rq # <<>> /\ nacc < MaxAcc
+    /\ LET p == Head(lst.rq)
+           cc == Pdu("CC", p.s, SapB, lst.rmiu, lst.rw, 0)
+           i1 == Pdu("I", p.s, SapB, 0, 0, 0) IN
+       /\ lst' = [lst EXCEPT !.rq = Tail(@)]
+       /\ acc' = Append(acc, [st |-> "ESTABLISHED", peer |-> p.s, smiu |-> Min(p.miu, LinkMiuB), swin |-> p.rw,
+                              rmiu |-> lst.rmiu, rw |-> lst.rw])
+       /\ ba' = IF EarlyOrder = "cc-first" THEN ba \o <<cc, i1>> ELSE ba \o <<i1, cc>>
+    /\ nacc' = nacc + 1
+    /\ UNCHANGED <<cl, ab, lost>>
 
 CloseAcc(i) ==
     /\ i \in DOMAIN acc /\ acc[i].st = "ESTABLISHED"
     /\ acc' = [acc EXCEPT ![i].st = "DISCONNECT"]
     /\ ba' = Append(ba, Pdu("DISC", acc[i].peer, SapB, 0, 0, 0))
-    /\ UNCHANGED <<cl, lst, ab, nacc>>
+    /\ UNCHANGED <<cl, lst, ab, nacc, lost>>
 RecvNoneAcc(i) ==
     /\ i \in DOMAIN acc /\ acc[i].st = "CLOSE_WAIT"
     /\ acc' = [acc EXCEPT ![i].st = "SHUTDOWN"]
-    /\ UNCHANGED <<cl, lst, ab, ba, nacc>>
+    /\ UNCHANGED <<cl, lst, ab, ba, nacc, lost>>
 
 Next == \/ \E c \in Clients : Connect(c) \/ CloseClient(c) \/ RecvNone(c)
-        \/ DeliverA \/ DeliverB \/ Accept
+        \/ DeliverA \/ DeliverB \/ Accept \/ AcceptSend
         \/ \E i \in 1..MaxAcc : CloseAcc(i) \/ RecvNoneAcc(i)
 Fair == WF_vars(DeliverA) /\ WF_vars(DeliverB) /\ WF_vars(Accept)
         /\ \A c \in Clients : WF_vars(RecvNone(c))
@@ -162,6 +183,10 @@ ConnectAnswered == \A c \in Clients : (cl[c].st = "CONNECT") ~> (cl[c].st # "CON
 \* liveness: a close() handshake completes
 CloseCompletes == \A c \in Clients : (cl[c].st = "DISCONNECT") ~> (cl[c].st = "SHUTDOWN")
 
+\* data a server sends right after accept() is not lost
+NoEarlyLoss == ~lost
+
+W_EarlyData   == ~(\E c \in Clients : cl[c].st = "ESTABLISHED" /\ ba # <<>> /\ Head(ba).t = "I" /\ Head(ba).d = Addr(c)[c])
 W_Established == ~(\E c \in Clients : cl[c].st = "ESTABLISHED")
 W_Busy        == ~(\E c \in Clients : cl[c].res = "REFUSED-BUSY")
 W_Closed      == ~(\E c \in Clients : cl[c].st = "SHUTDOWN")
